@@ -34,10 +34,16 @@ HEADER = '/usr/include/linux/io_uring.h'
 
 
 def find_api(apis, op):
-    a = apis.get(op)
-    if a is None:
-        c = [k for k in apis if k.split('<')[0] == op.split('<')[0]]
-        a = apis[c[0]] if c else api.OpApi(op)
+    """API of an operation type; generic instantiations (ToDirectOp<M> vs ToDirectOp<Signals>) are merged,
+    deterministically"""
+    base = op.split('<')[0]
+    a = api.OpApi(op)
+    for k in sorted(apis):
+        if k == op or k.split('<')[0] == base:
+            a.ctors += apis[k].ctors
+            a.builders += apis[k].builders
+    a.ctors.sort(key=lambda c: (c[0].path, c[1]))
+    a.builders.sort(key=lambda b: (b[0].path, b[1], b[2]))
     return a
 
 
